@@ -44,6 +44,20 @@ def dominating_tests(mod: Module, fn: ast.AST, node: ast.AST) -> list[tuple[ast.
     return out
 
 
+def known_true(tests, name: str) -> bool:
+    """Do the dominating tests establish that the boolean `name` is true?  (`if name:` around, or an earlier
+    `if not name: <leave>`; negations are unfolded.)"""
+    for t, pol in tests:
+        while isinstance(t, ast.UnaryOp) and isinstance(t.op, ast.Not):
+            t, pol = t.operand, not pol
+        if pol and norm(t) == name:
+            return True
+        # a conjunction that holds establishes each conjunct
+        if pol and isinstance(t, ast.BoolOp) and isinstance(t.op, ast.And) and any(norm(v) == name for v in t.values):
+            return True
+    return False
+
+
 def feasible_lengths(tests, seq_expr: str, interp_eval, upto=6) -> list[int]:
     """Lengths n in 0..upto of the sequence `seq_expr` under which all dominating tests hold.
 
